@@ -184,18 +184,24 @@ Proof using Hexp.
   unfold kf1_cmd in Hkf. fold cs in Hkf.
   destruct (c_bound cs) as [[a side]|] eqn:Hb; [|discriminate].
   destruct (m_type msg) as [t|] eqn:Ht; [|discriminate].
-  assert (Hcase : (t = TOpen \/ t = TClose) /\
-                  exists m, m_mailbox msg = Some m /\ pk_clash (chan_w s) a m).
-  { destruct t; try discriminate;
-      (destruct (m_mailbox msg) as [m|] eqn:Hm; [|discriminate]);
-      (split; [auto|]); exists m; (split; [reflexivity|]);
-      apply foreign_clash; [exact (si_db s Hinv)|exact Hkf|exact (si_db s Hinv)|exact Hkf]. }
-  clear Hkf. destruct Hcase as [Ht' [m [Hm Hclash]]].
+  assert (Hcase : (t = TOpen /\ exists m, m_mailbox msg = Some m /\ pk_clash (chan_w s) a m) \/
+                  (t = TClose /\ exists m, cmd_mbox cs msg = Some m /\ pk_clash (chan_w s) a m)).
+  { destruct t; try discriminate.
+    - left. split; [reflexivity|].
+      destruct (m_mailbox msg) as [m|] eqn:Hm; [|discriminate].
+      exists m. split; [reflexivity|].
+      apply foreign_clash; [exact (si_db s Hinv)|exact Hkf].
+    - right. split; [reflexivity|]. rewrite Hmb in Hkf. unfold cmd_mbox.
+      destruct (m_mailbox msg) as [m|] eqn:Hm.
+      + exists m. split; [reflexivity|]. apply foreign_clash; [exact (si_db s Hinv)|exact Hkf].
+      + destruct (c_mailbox_id cs) as [m|] eqn:Hid; [|discriminate].
+        exists m. split; [reflexivity|]. apply foreign_clash; [exact (si_db s Hinv)|exact Hkf]. }
+  clear Hkf.
   rewrite (step_cmd cfg s c msg o t cs Hhas Ht).
   set (s1 := set_log s [LFrame c (FAck (m_id msg)) (is_clean s)]).
   assert (Hco : conn_of s1 c = cs) by reflexivity.
   assert (Hl1 : lookup_conn c (conns s1) = Some cs) by exact Hhas.
-  destruct Ht' as [-> | ->].
+  destruct Hcase as [[-> [m [Hm Hclash]]] | [-> [m [Hcm Hclash]]]].
   - rewrite (dispatch_bound cfg c TOpen msg o s1 a side)
       by (try discriminate; rewrite Hco; exact Hb).
     rewrite (handle_open_clash c a side msg s1 cs m Hl1 Hmb Hm Hclash).
@@ -207,7 +213,6 @@ Proof using Hexp.
                   name_mismatch (m_mailbox msg) (c_mailbox_id cs) = false).
     { unfold erroneous in Herr. rewrite Ht, Hb in Herr. apply orb_false_iff in Herr. exact Herr. }
     destruct Hdc as [Hdc Hnm].
-    assert (Hcm : cmd_mbox cs msg = Some m) by (unfold cmd_mbox; rewrite Hm; reflexivity).
     rewrite (dispatch_bound cfg c TClose msg o s1 a side)
       by (try discriminate; rewrite Hco; exact Hb).
     rewrite (handle_close_fresh_fail cfg c a side msg s1 cs m (chan_w s) Hl1 Hdc Hnm Hcm Hmb
@@ -279,8 +284,8 @@ Proof using Hexp.
       * rewrite open_db_messages. exact Emsg.
   - (* open *)
     destruct (m_mailbox msg) as [m|] eqn:Hm; [|discriminate].
-    destruct (crowded_sel _ _ _ Hkf) as [Hlen [r0 Hr0]].
     assert (Hcm : cmd_mbox cs msg = Some m) by (unfold cmd_mbox; rewrite Hm; reflexivity).
+    destruct (crowded_sel _ _ _ Hkf) as [Hlen [r0 Hr0]].
     pose proof (open_outcome cfg s c cs a side msg o m Hinv Hlog Hhas Hb Ht Herr Hm) as H.
     destruct (step cfg s (EB (ECmd c msg o))) as [s' ob]. cbv zeta in H.
     destruct H as [_ [(_ & _ & _ & Hclash)|(Hx & Hd' & Hcases)]];
